@@ -149,7 +149,9 @@ def run(phase, cases, ctx):
                 mR, mRt, mH, mP = (stokes_matrix(kind, shape, 'rot', full), stokes_matrix(kind, shape, 'rot_t', full), stokes_matrix(kind, shape, 'hwp', full), pol_matrix(kind, shape))
                 for label, op_, ref in (('HWP.create(float32, float64 angles)', HWPOperator.create(shape, jnp.float32, kind, angles=a), mRt @ mH @ mR),
                                         ('polariser.create(float32, float64 angles)', LinearPolarizerOperator.create(shape, jnp.float32, kind, angles=a), mP @ mR),
-                                        ('rotation.create(float32, float64 angles)', QURotationOperator.create(shape, jnp.float32, kind, angles=a), mR)):
+                                        ('rotation.create(float32, float64 angles)', QURotationOperator.create(shape, jnp.float32, kind, angles=a), mR),
+                                        ('rotation(float32, float64 angles).T', QURotationOperator.create(shape, jnp.float32, kind, angles=a).T, mRt),
+                                        ('rotation(float32, float64 angles).I', QURotationOperator.create(shape, jnp.float32, kind, angles=a).I, mRt)):
                     if not P.same_struct(op_.in_structure(), S32):
                         violations.append({'kind': 'factory-structure', 'case': case, 'detail': f'{label}: {op_.in_structure()}'})
                         continue
